@@ -129,8 +129,8 @@ func runC11(c *Ctx) {
 			val := func(k int64) func(ssa.Value) bool {
 				return func(v ssa.Value) bool { return outputField(v, k, "Value") }
 			}
-			c.GuardSuccess("G-exact", "v2|CR share", cb, "Outputs()[0].Value == ceil(total*0.3)", condCmp(val(0), share(0.3), token.EQL, true), opt)
-			c.GuardSuccess("G-exact", "v2|miner share", cb, "Outputs()[1].Value == total - ceil(total*0.3) - ceil(total*0.35)", condCmp(val(1), isMiner, token.EQL, true), opt)
+			c.GuardSuccess("G-exact", "v2|CR share", cb, "Outputs()[0].Value == ceil(total*0.3)", condCmp(val(0), viaHelperResult(share(0.3)), token.EQL, true), opt)
+			c.GuardSuccess("G-exact", "v2|miner share", cb, "Outputs()[1].Value == total - ceil(total*0.3) - ceil(total*0.35)", condCmp(val(1), viaHelperResult(isMiner), token.EQL, true), opt)
 			c.GuardSuccess("G-exact", "v2|exactly three outputs", cb, "len(Outputs()) == 3", condCmp(func(v ssa.Value) bool {
 				return isLenOf(func(x ssa.Value) bool {
 					return methodCallNamed(x, "Outputs") && ssau.DependsOn(x, func(y ssa.Value) bool { return paramNamed(y, "coinbase") })
@@ -304,17 +304,44 @@ func runC11(c *Ctx) {
 	if g := c.fn("common/config", "Configuration", "newRewardPerBlock"); g != nil {
 		isH := func(v ssa.Value) bool { return paramNamed(v, "height") }
 		n := 0
+		// the halving count may be computed in a small helper of the same package (its parameters stand for the arguments)
+		type scoped struct {
+			f   *ssa.Function
+			via *ssa.Call
+		}
+		scope := []scoped{{g, nil}}
 		for _, b := range g.Blocks {
 			for _, in := range b.Instrs {
-				bo, ok := in.(*ssa.BinOp)
-				if !ok || bo.Op != token.SUB {
-					continue
-				}
-				if isH(bo.X) && fieldIs("Configuration", "HalvingRewardHeight")(bo.Y) {
-					n++
-					c.G2("T-schedule", "newRewardPerBlock|height-HalvingRewardHeight cannot wrap", g, in, "height >= HalvingRewardHeight", condCmp(isH, fieldIs("Configuration", "HalvingRewardHeight"), token.GEQ, true))
+				if cl, ok := in.(*ssa.Call); ok {
+					if h := cl.Call.StaticCallee(); h != nil && h.Pkg == g.Pkg && h != g && len(h.Blocks) > 0 && len(h.Blocks) <= 12 {
+						scope = append(scope, scoped{h, cl})
+					}
 				}
 			}
+		}
+		inScope := func(sc scoped, f func()) {
+			if sc.via != nil {
+				ssau.WithParamSubst(sc.via, f)
+				return
+			}
+			f()
+		}
+		for _, sc := range scope {
+			sc := sc
+			inScope(sc, func() {
+				for _, b := range sc.f.Blocks {
+					for _, in := range b.Instrs {
+						bo, ok := in.(*ssa.BinOp)
+						if !ok || bo.Op != token.SUB {
+							continue
+						}
+						if isH(bo.X) && fieldIs("Configuration", "HalvingRewardHeight")(bo.Y) {
+							n++
+							c.G2("T-schedule", "newRewardPerBlock|height-HalvingRewardHeight cannot wrap", sc.f, in, "height >= HalvingRewardHeight", condCmp(isH, fieldIs("Configuration", "HalvingRewardHeight"), token.GEQ, true))
+						}
+					}
+				}
+			})
 		}
 		c.R.FloorCheck("T-schedule halving subtraction sites", n, 1)
 		// result: Convert(float) of a quotient chain with positive divisors
@@ -333,33 +360,51 @@ func runC11(c *Ctx) {
 		}
 		// the exponent is factor-1 where factor is a phi of 1 and 2 + quotient: non-decreasing pieces
 		okPhi := false
-		for _, b := range g.Blocks {
-			for _, in := range b.Instrs {
-				if phi, ok := in.(*ssa.Phi); ok {
-					one, grow := false, false
-					for _, e := range phi.Edges {
-						if isConstInt(1)(e) {
-							one = true
-						}
-						if add, ok := e.(*ssa.BinOp); ok && add.Op == token.ADD {
-							var q ssa.Value
-							if isConstInt(2)(add.X) {
-								q = add.Y
-							} else if isConstInt(2)(add.Y) {
-								q = add.X
-							}
-							if quo, ok := q.(*ssa.BinOp); ok && quo.Op == token.QUO && fieldIs("Configuration", "HalvingRewardInterval")(quo.Y) {
-								if sub, ok := quo.X.(*ssa.BinOp); ok && sub.Op == token.SUB && isH(sub.X) {
-									grow = true
-								}
-							}
-						}
+		pieces := func(vals []ssa.Value) {
+			one, grow := false, false
+			for _, e := range vals {
+				if isConstInt(1)(e) {
+					one = true
+				}
+				if add, ok := e.(*ssa.BinOp); ok && add.Op == token.ADD {
+					var q ssa.Value
+					if isConstInt(2)(add.X) {
+						q = add.Y
+					} else if isConstInt(2)(add.Y) {
+						q = add.X
 					}
-					if one && grow {
-						okPhi = true
+					if quo, ok := q.(*ssa.BinOp); ok && quo.Op == token.QUO && fieldIs("Configuration", "HalvingRewardInterval")(quo.Y) {
+						if sub, ok := quo.X.(*ssa.BinOp); ok && sub.Op == token.SUB && isH(sub.X) {
+							grow = true
+						}
 					}
 				}
 			}
+			if one && grow {
+				okPhi = true
+			}
+		}
+		for _, sc := range scope {
+			sc := sc
+			inScope(sc, func() {
+				for _, b := range sc.f.Blocks {
+					for _, in := range b.Instrs {
+						if phi, ok := in.(*ssa.Phi); ok {
+							pieces(phi.Edges)
+						}
+					}
+				}
+				if sc.via != nil {
+					// the helper's returns are the pieces
+					var vals []ssa.Value
+					for _, ret := range ssau.Returns(sc.f) {
+						if len(ret.Results) == 1 {
+							vals = append(vals, ret.Results[0])
+						}
+					}
+					pieces(vals)
+				}
+			})
 		}
 		c.R.Check("T-schedule", "newRewardPerBlock|halving count is 1 below the halving height and 2+(height-H)/I from it", okPhi, c.pos(g.Pos()), "factor is non-decreasing in height: constant 1, then 2 plus a floor quotient of a non-wrapping difference")
 	}
